@@ -425,10 +425,10 @@ def workload(tier, rng, shard, nshards, work):
     # objects that carry a history (mutated in place, or produced by earlier operations): the monitors judge every call made on them
     import contextlib as _cl
     import io as _io
-    from workloads.histories import run_histories
+    from workloads.histories import run_histories, RefusedEditFrame
 
     with _cl.redirect_stdout(_io.StringIO()):
-        run_histories(rng, (400 if tier == "quick" else 12000) // nshards)
+        run_histories(rng, (400 if tier == "quick" else 12000) // nshards, observer=RefusedEditFrame(PROP))
 
 
 def _workload(tier, rng, shard, nshards):
